@@ -1136,6 +1136,10 @@ class Translator:
         if name in BUILTIN_FUNCS["fresh"]:
             return []
         if name in BUILTIN_FUNCS["view"]:
+            if name in ("min", "max", "next") and e.args and not any(isinstance(a, ast.Starred) for a in e.args) \
+                    and all(self.elements_immutable(a) for a in e.args) \
+                    and all(k.arg == "default" and isinstance(k.value, ast.Constant) for k in e.keywords):
+                return []        # an element of a container whose elements are immutable values (see elements_immutable)
             return uniq(load_of(allsrc) + allsrc)
         if name in BUILTIN_FUNCS["shallow"]:
             if name in ("list", "tuple", "set", "frozenset", "sorted") and len(e.args) == 1 and not e.keywords \
